@@ -140,12 +140,19 @@ Proof.
 Qed.
 Print Assumptions C16_sites_safe.
 
-(* non-vacuity: the Caltech dump has one transformer covering all 54 EVSEs and two pods, and a
-   concrete schedule (5 A on every EVSE) that its network accepts, and one (32 A) that it rejects *)
+(* non-vacuity: the Caltech dump has a transformer with stations behind it and pods, a concrete
+   schedule (5 A on every EVSE) that its network accepts, and one (32 A) that it rejects *)
 Example C16_caltech_example :
-  length (s_transformers site_caltech_real_0) = 1%nat
-  /\ length (s_pods site_caltech_real_0) = 2%nat
-  /\ n_site_stations site_caltech_real_0 = 54%nat
-  /\ net_is_feasible QF (site_net_Q site_caltech_real_0) (repeat [5%Q] 54) 1 false None None = true
-  /\ net_is_feasible QF (site_net_Q site_caltech_real_0) (repeat [32%Q] 54) 1 false None None = false.
-Proof. repeat split; vm_compute; reflexivity. Qed.
+  let s := site_caltech_real_0 in
+  let N := n_site_stations s in
+  (exists tr, In tr (s_transformers s) /\ t_members tr <> [])
+  /\ s_pods s <> []
+  /\ net_is_feasible QF (site_net_Q s) (repeat [5%Q] N) 1 false None None = true
+  /\ net_is_feasible QF (site_net_Q s) (repeat [32%Q] N) 1 false None None = false.
+Proof.
+  cbv zeta. split; [|split; [|split]].
+  - eexists. split; [left; reflexivity|]. vm_compute. discriminate.
+  - vm_compute. discriminate.
+  - vm_compute. reflexivity.
+  - vm_compute. reflexivity.
+Qed.
